@@ -215,10 +215,14 @@ CURATED_L = [
     ([('A', 'Always'), ('T', 'Ephemeral'), ('B', 'Output'), ('D', 'Output')], [('B', 'A'), ('D', 'A'), ('B', 'T'), ('D', 'B')]),
     ([('T', 'Ephemeral'), ('B', 'Output'), ('C', 'Output'), ('X', 'Always')], [('B', 'T'), ('C', 'T'), ('C', 'X')]),
     ([('A', 'Always'), ('P', 'Ephemeral'), ('Q', 'Ephemeral'), ('X', 'Output'), ('Y', 'Output')], [('P', 'A'), ('Q', 'P'), ('X', 'Q'), ('Y', 'P')]),
+    ([('E', 'Ephemeral'), ('D', 'Ephemeral'), ('A', 'Output'), ('B', 'Output'), ('X', 'Output'), ('Y', 'Output')],
+     [('D', 'E'), ('X', 'D'), ('Y', 'D'), ('X', 'A'), ('Y', 'B')]),
+    ([('P', 'Ephemeral'), ('Q', 'Ephemeral'), ('R', 'Ephemeral'), ('S', 'Ephemeral'), ('D', 'Output'), ('A', 'Always')],
+     [('Q', 'P'), ('R', 'Q'), ('S', 'R'), ('D', 'S'), ('D', 'A')]),
 ]
 
 
-def built_jobs(family, tier, seed, n4=0, chain=0, chain_max=6, rand=0, modes=('ident',), curated=True):
+def built_jobs(family, tier, seed, n4=0, chain=0, chain_max=6, rand=0, modes=('ident',), curated=True, curated_max=99):
     """H-BUILT universes: curated large shapes, plus seeded samples (quick) or complete enumerations (thorough) of
     all 4-job graphs, the chain family and random 5-7 job graphs"""
     rng = random.Random(1000003 * seed + 17)
@@ -228,7 +232,8 @@ def built_jobs(family, tier, seed, n4=0, chain=0, chain_max=6, rand=0, modes=('i
             jobs.append({'family': family, 'nodes': nodes, 'edges': edges, 'mode': mode, 'hist': 'built', 'tag': tag})
     if curated:
         for nodes, edges in CURATED_L:
-            add(nodes, edges, 'L')
+            if len(nodes) <= curated_max:
+                add(nodes, edges, 'L')
     inst4 = list(H.all_instances(4))
     if n4 < 0 or n4 >= len(inst4):
         sel = inst4
@@ -316,6 +321,10 @@ def universes(family, tier, seed):
                 jobs.append({'family': family, 'nodes': nodes, 'edges': edges, 'mode': mode})
         for nodes, edges, stale in HIST_CASES:
             jobs.append({'family': family, 'nodes': nodes, 'edges': edges, 'mode': 'ident', 'stale': stale})
+        if tier == 'thorough':
+            jobs += built_jobs(family, tier, seed, n4=-1, chain=-1, chain_max=6, rand=100)
+        else:
+            jobs += built_jobs(family, tier, seed, n4=100, chain=40, chain_max=6)
         for i, j in enumerate(jobs):
             j['name'] = 'ind%d_%s_%s' % (i, j['mode'], ''.join(k[0] for _, k in j['nodes']) + '_' + ''.join('%s%s' % (u, d) for d, u in j['edges']))
         jobs.sort(key=lambda j: -len(j['nodes']) * 10 - len(j['edges']))
@@ -330,6 +339,15 @@ def universes(family, tier, seed):
         if family == 'H-EVAL2':
             for nodes, edges in CURATED4:
                 jobs.append({'family': family, 'nodes': nodes, 'edges': edges, 'mode': 'ident'})
+            if tier == 'thorough':
+                jobs += built_jobs(family, tier, seed, n4=-1, chain=-1, chain_max=6, rand=100)
+            else:
+                jobs += built_jobs(family, tier, seed, n4=100, chain=40, chain_max=6)
+        else:
+            if tier == 'thorough':
+                jobs += built_jobs(family, tier, seed, n4=600, chain=200, chain_max=6)
+            else:
+                jobs += built_jobs(family, tier, seed, n4=40, chain=0, curated_max=5)
         for i, j in enumerate(jobs):
             j['name'] = '%s%d_%s_%s' % (family[2:].lower(), i, j['mode'], ''.join(k[0] for _, k in j['nodes']) + '_' + ''.join('%s%s' % (u, d) for d, u in j['edges']))
         jobs.sort(key=lambda j: -len(j['nodes']) * 10 - len(j['edges']))
@@ -343,6 +361,14 @@ def universes(family, tier, seed):
         for nodes, edges in CURATED4:
             for mode in (['ident', 'rel'] if tier == 'thorough' else ['ident']):
                 jobs.append({'family': 'H-ORDER', 'nodes': nodes, 'edges': edges, 'mode': mode, 'tier': 'quick', 'seed': seed})
+        if tier == 'thorough':
+            bj = built_jobs('H-ORDER', tier, seed, n4=-1, chain=-1, chain_max=6, rand=100)
+        else:
+            bj = built_jobs('H-ORDER', tier, seed, n4=100, chain=40, chain_max=6)
+        for j in bj:
+            j['tier'] = 'quick'
+            j['seed'] = seed
+        jobs += bj
         for i, j in enumerate(jobs):
             j['name'] = 'o%d_%s_%s' % (i, j['mode'], ''.join(k[0] for _, k in j['nodes']) + '_' + ''.join('%s%s' % (u, d) for d, u in j['edges']))
         jobs.sort(key=lambda j: -len(j['nodes']) * 10 - len(j['edges']))
